@@ -126,7 +126,6 @@ pub fn vec_last(v: &Vec<T>) -> (r: Option<T>)
 { unimplemented!() }
 
 // ---- axioms about the library functions (textbook facts; each is an assumption) ----
-pub broadcast axiom fn ax_r_eq(a: R, b: R) ensures #[trigger] a.v() == #[trigger] b.v() ==> a == b;
 pub broadcast axiom fn ax_exp_pos(x: real) ensures #[trigger] r_exp(x) > 0real;
 pub broadcast axiom fn ax_exp_neg(x: real) ensures x < 0real ==> #[trigger] r_exp(x) < 1real;
 pub broadcast axiom fn ax_exp_nonpos(x: real) ensures x <= 0real ==> #[trigger] r_exp(x) <= 1real;
@@ -148,7 +147,7 @@ pub axiom fn ax_signum0() ensures r_signum0() == 1real || r_signum0() == -1real;
 // binary entropy H(p) = -(p log2 p + (1-p) log2(1-p)) lies in [0,1] for 0 < p < 1; and 0*log2(0) = 0 (the code patches NaN to 0)
 pub axiom fn ax_entropy(p: real) ensures 0real < p < 1real ==> 0real <= -(p * r_log2(p) + (1real - p) * r_log2(1real - p)) <= 1real;
 pub axiom fn ax_log2_one() ensures r_log2(1real) == 0real;
-pub broadcast group group_shim { ax_r_eq, ax_exp_pos, ax_exp_neg, ax_exp_nonpos, ax_cos_bound, ax_sin_bound, ax_tanh, ax_sqrt, ax_powi2 }
+pub broadcast group group_shim { ax_exp_pos, ax_exp_neg, ax_exp_nonpos, ax_cos_bound, ax_sin_bound, ax_tanh, ax_sqrt, ax_powi2 }
 //@@LITERAL_AXIOMS@@
 
 // ---- the crate's trait `View`, with its contract ----
